@@ -307,7 +307,7 @@ pub fn run(ctx: &Ctx, st: &mut Stats) {
             3 => C::ab(K::Dt, rng.range_i64(-400 * DAY_US, 400 * DAY_US), 0),
             _ => C::ab(K::Dt, rng.range_i64(-DT_LIM, DT_LIM), 0),
         };
-        st.eval_h(c.hash(c.k as u64), &c, check);
+        { let (an, td, ks) = crate::primers::g_context(c.a, c.b); crate::primers::eval_sched(st, rng, c.hash(c.k as u64), &c, &an, td, &ks, check); }
     });
 }
 
